@@ -113,4 +113,5 @@ TESTS = [Test('machine', _run, machine=sm.machine_factory(PROP),
          Test('wrapper', run_wrapper, strategy=lambda tier: wrapper_cases(tier),
               examples={'quick': 2400, 'thorough': 60000})]
 
-KNOWN = {}
+KNOWN = {'F52-gradient-norm-tolerance-calls-raw-cost': sm.kf_gnt}
+from vp.solver_machine import kf_gnt as _kf_gnt_pred
